@@ -495,6 +495,19 @@ def run(res, b, tier, seed):
                                    meta=dict(expected_out=["outer inner!", "inner? global", "param outer inner! global"], expected_status=0, src=ssrc,
                                              original=SCOPES % dict(n="name", p="p"),
                                              renaming="one spelling (%s) for locals of caller and callee, a parameter and a later global" % nm, reserved=[])))
+    # FUNCTION names that differ only in letter case (round 10: C10-C, the number in the prefix of a function's locals looked up by name
+    # ignoring case): both functions have a local and a parameter of the same spelling, one calls the other while its local is live.
+    # Bash keeps names apart by case, so the behaviour must not depend on the spelling (the Batch side of such names is the known
+    # finding batch-names-case-insensitive and is not executed here)
+    CASEFN = ('func %(f)s(n int) int {\n\tacc := 0\n\tfor i := 1; i <= n; i++ {\n\t\tacc += i\n\t}\n\treturn acc\n}\n'
+              'func %(g)s(n int) int {\n\tacc := 100\n\tfor i := 1; i <= n; i++ {\n\t\tacc += %(f)s(i)\n\t}\n\treturn acc\n}\n'
+              'func %(h)s(n int) int {\n\tacc := %(g)s(n)\n\tacc2 := %(f)s(n)\n\treturn acc - acc2\n}\nprint(%(f)s(3), %(g)s(3), %(h)s(2))\n')
+    for i, (f_, g_, h_) in enumerate([("total", "grand", "third"), ("total", "Total", "third"), ("total", "TOTAL", "tOTAL"), ("sumUp", "sumup", "SumUp"),
+                                      ("a", "A", "b"), ("f1", "F1", "f2"), ("grand", "total", "Grand"), ("x", "y", "X")]):
+        csrc = CASEFN % dict(f=f_, g=g_, h=h_)
+        cases.append(pipeline.Case("fc%d" % i, {"main.tsh": csrc.encode()},
+                                   meta=dict(expected_out=["6 110 101"], expected_status=0, src=csrc, original=CASEFN % dict(f="total", g="grand", h="third"),
+                                             renaming="functions spelled %s / %s / %s (case variants of one another), equal local names" % (f_, g_, h_), reserved=[])))
     for role, t in ROLE_TEMPLATES.items():
         for i, nm in enumerate(["neutralname"] + [n for n in RESERVED_POOL if n not in KEYWORDS] + [n for n in LOOKALIKE_POOL if not is_reserved(n)]):
             rsrc = t % dict(X=nm)
